@@ -261,6 +261,8 @@ class NetStation(_StationBase):
 
     def __init__(self, bus, name, via="listener", modifiable=True, fragile=False, send_fail=None, zero_ts=False):
         super().__init__(bus, name)
+        self.queued_send = False        # see send()
+        self._txq = None
         self.zero_ts = zero_ts          # an interface without time stamps: every received frame is stamped 0.0
         self.network = None
         self.via = via                  # 'listener' -> MessageListener.on_message_received ; 'notify' -> Network.notify ;
@@ -284,13 +286,34 @@ class NetStation(_StationBase):
         self.network = network
         return self
 
+    def close(self):
+        super().close()
+        if self._txq is not None:
+            self._txq.put(None)
+
     # ---- python-can BusABC surface used by canopen
+    def _flush_loop(self):
+        while True:
+            msg = self._txq.get()
+            if msg is None:
+                return
+            time.sleep(0.0003)
+            # the driver looks at the message object only now: what the sender did to it after send() returned is sent
+            self.simbus.transmit(self, msg.arbitration_id, bytes(msg.data), msg.is_extended_id, msg.is_remote_frame, dlc=msg.dlc)
+
     def send(self, msg, timeout=None):
         if self.send_fail is not None:
             exc = self.send_fail(msg)
             if exc is not None:
                 raise exc
         self.sent_msgs.append(msg)
+        if self.queued_send:
+            # a driver with a transmit queue: send() returns at once, the frame goes out a little later from another thread
+            if self._txq is None:
+                self._txq = queue.Queue()
+                threading.Thread(target=self._flush_loop, name=f"simbus-tx-{self.name}", daemon=True).start()
+            self._txq.put(msg)
+            return
         if self.fragile:
             # two-step frame assembly: overlapping sends mix their fields
             self._in_send += 1
